@@ -37,6 +37,13 @@ PFX = {
 }
 
 
+def _norm_name(name):
+    """registered unit names compared without spaces/hyphens, plural s, and the -re/-er spelling (metres = meter)"""
+    n = re.sub(r"[ -]", "", name.lower())
+    n = n.replace("metre", "meter").replace("litre", "liter")
+    return n[:-1] if n.endswith("s") else n
+
+
 def split_outside(s, sep):
     out, cur, d = [], "", 0
     for ch in s:
@@ -143,8 +150,7 @@ class Table:
                 oi = self.db.unit_to_unit_info[o]
                 if oi.quantity_type != info.quantity_type:
                     continue
-                n = re.sub(r"[ -]", "", info.name.lower())
-                on = re.sub(r"[ -]", "", oi.name.lower())
+                n, on = _norm_name(info.name), _norm_name(oi.name)
                 if any(n == w + on for w in words):
                     return (e, o)
         return None
@@ -158,6 +164,61 @@ def slope_by_conversion(db, u):
     if s1 is not None:
         return s1.GetValue(b) - Scalar(0.0, u).GetValue(b)
     return db.Convert(qt, u, b, 1.0) - db.Convert(qt, u, b, 0.0)
+
+
+def _compose(dec, unit_of):
+    """The amount  prod (mult x 1 unit ** exp) ** sign  built with real Scalar arithmetic."""
+    res = None
+    for (mult, atom, exp), sg in dec:
+        x = Scalar(1.0, unit_of(atom))
+        if exp != 1:
+            x = x**exp
+        if mult != 1:
+            x = float(mult) * x
+        if res is None:
+            res = x if sg > 0 else 1.0 / x
+        else:
+            res = res * x if sg > 0 else res / x
+    return res
+
+
+def _by_scalar_arithmetic(part, db, t):
+    """The property's second wording, on the real operators: for every decomposable row (scale-only parts) the
+    amount composed by multiplying and dividing Scalars of 1 <part>, measured against the same expression written
+    in the parts' base units, is the product of the parts' factors.  All rows one after the other on ONE database,
+    in table order and then in reverse order (what an earlier row left behind must not change a later one)."""
+    rows = []
+    for s in sorted(t.syms):
+        dec = t.decompose(s)
+        if dec is None:
+            continue
+        ok = True
+        for (mult, atom, exp), sg in dec:
+            qt = db.GetQuantityType(atom)
+            if not db.GetDefaultCategory(atom) or db.Convert(qt, atom, db.GetBaseUnit(qt), 0.0) != 0 or db.Convert(qt, db.GetBaseUnit(qt), atom, 0.0) != 0:
+                ok = False
+        if ok:
+            rows.append((s, dec))
+    base_of = lambda u: db.GetBaseUnit(db.GetQuantityType(u))
+    for order, seq in (("table order", rows), ("reverse table order", rows[::-1])):
+        for s, dec in seq:
+            part.count("evaluations")
+            part.count("rows_by_scalar_arithmetic")
+            want = 1.0
+            for (mult, atom, exp), sg in dec:
+                want *= (slope_by_conversion(db, atom) ** exp) ** sg
+            text = " ".join("%s%s^%d" % ("" if mult == 1 else "%sx" % mult, atom, exp * sg) for (mult, atom, exp), sg in dec)
+            sig = "C06:row %s = %s composed with Scalar arithmetic (%s)" % (s, text, order)
+            try:
+                ratio = _compose(dec, lambda u: u) / _compose(dec, base_of)
+                got, unit = ratio.GetValue(), ratio.GetUnit()
+            except Exception as e:
+                part.violation(sig + ":raised", {"error": repr(e)})
+                continue
+            if unit != "" or not abs(got - want) <= 1e-9 * abs(want):
+                part.violation(sig + ":is not the product of the parts' factors", {"composed_over_base_units": got, "unit_of_the_quotient": unit, "product_of_the_parts_factors": want},
+                               "from mc import worlds\nwith worlds.world('posc') as db:\n    import mc.props.c06 as c06\n    t = c06.Table(db)\n    from mc.runner import Part\n    p = Part()\n    c06._by_scalar_arithmetic(p, db, t)\n"
+                               "    for v in p.violations:\n        print(v['signature'], v['detail'])\n    assert not p.violations\n")
 
 
 def run(ctx):
@@ -241,6 +302,7 @@ def run(ctx):
                         {"row": s, "name": db.unit_to_unit_info[s].name, "row_factor": float(f), "prefix_times_base_row": float(p), "relative_error": float(rel)},
                         "from mc import worlds\nwith worlds.world('posc') as db:\n    import mc.props.c06 as c06\n    a, b = c06.slope_by_conversion(db, %r), 1e%d * c06.slope_by_conversion(db, %r)\n    print(a, b)\n    assert abs(a - b) <= %r * abs(b)\n" % (s, e, o, float(tol) + 1e-12),
                     )
+        _by_scalar_arithmetic(part, db, t)
         if rows != len(db.unit_to_unit_info):
             part.notes.append("visited %d rows of %d" % (rows, len(db.unit_to_unit_info)))
     ctx.level = "exploration"
@@ -256,6 +318,7 @@ def run(ctx):
         "prefixed_rows": part.counters.get("prefixed_rows", 0),
         "rows_not_decomposable_by_the_grammar": skipped,
         "power_rows_through_exponent_lists": part.counters.get("power_rows", 0),
+        "rows_composed_with_scalar_arithmetic_in_two_orders": part.counters.get("rows_by_scalar_arithmetic", 0),
     }
     ctx.assumptions = [
         "rows the grammar cannot decompose (parentheses groups, '^', '*', spaces, double slashes, '<...>') are not judged",
